@@ -22,7 +22,8 @@ ASSUMPTIONS = [
     "handshake handlers do not touch the datagram window (Role.KeepsPw; true of the base class, part of the C02 model for the subclasses)",
 ]
 RULE = ("two-party histories under heavy duplication (bursts), delay up to 4000 ticks, replays of any earlier datagram at any later point "
-        "(also after the 32-datagram and 256-message windows moved on, and across the sequence wrap), retransmission races for all retry modes; "
+        "(also after the 32-datagram and 256-message windows moved on, and across the sequence wrap), a datagram held back and arriving exactly "
+        "1..40 behind the newest, retransmission races for all retry modes; "
         "compared with the model: every recv result (return value, drop and delivery events), both windows and the dropped/received counters; "
         "non-trivial = at least one duplicate datagram rejected and one message delivered")
 
@@ -174,6 +175,10 @@ def run(ctx):
             sizes=[8, 12, 20, 60, 300, 1500, 3000] if i % 3 else [8, 9, 10, 11], retry_modes=(0, 1, -1),
             start={"ss": 65535 - rng.randint(0, 30), "sm": 65535 - rng.randint(0, 200), "sf": 65534} if i % 4 == 0 else None,
             send_rate=rng.choice([0.5, 0.9]), heal=(i % 2 == 0), take=0.2))
+    # a datagram held back and arriving exactly L behind the newest, L = 1..40 (the window edge is 32), also across the wrap
+    for L in range(1, 41):
+        cases.append(connlib.late_case("late%d" % L, L, held=rng.randint(0, 5),
+                                       start={"ss": 65535 - rng.randint(0, L + 4), "sm": 65000} if L % 2 else None))
     real2 = connlib.Real()
 
     def nontrivial(case, outs):
@@ -184,6 +189,9 @@ def run(ctx):
     for c in cases:
         log = logs.get(core.case_id(c), [])
         monitor(c, log, ctx)
+        if any(f["kind"] not in KNOWN for f in ctx.failures):
+            break
+        connlib.window_monitor(c, log, ctx)
         if any(f["kind"] not in KNOWN for f in ctx.failures):
             break
         for rec in log:
